@@ -54,7 +54,19 @@ struct Interp {
         { const char *pat = "%include f.cfg"; size_t first = std::string::npos, pos = 0, pl = strlen(pat);
           for (;;) { size_t hit = std::string::npos; for (size_t i = pos; i + pl <= body.size(); i++) if (!strncasecmp(body.data() + i, pat, pl)) { hit = i; break; }
                      if (hit == std::string::npos) break; if (first == std::string::npos) first = hit; else body.replace(hit + 9, 5, "nosuc"); pos = hit + pl; }
-          if (first != std::string::npos) { self_include = true; ctx.label("self-include"); } }
+          if (first != std::string::npos) { self_include = true; ctx.label("self-include"); }
+          // an %include whose argument is COMPUTED (%dirscan(.) lists f.cfg itself; a $VAR or a backquote could name it) is a
+          // self-include in disguise: with a literal one already present it would bring the same 2^n blow-up back
+          if (first != std::string::npos) {
+              for (size_t i = 0; i + 8 <= body.size(); i++) {
+                  if (strncasecmp(body.data() + i, "%include", 8) != 0 || i == first) continue;
+                  size_t e = body.find('\n', i);
+                  std::string arg = body.substr(i + 8, (e == std::string::npos ? body.size() : e) - i - 8);
+                  if (arg.find('%') != std::string::npos || arg.find('$') != std::string::npos || arg.find('`') != std::string::npos || arg.find('~') != std::string::npos) {
+                      body.replace(i, 8, "%incl_de"); ctx.label("computed-include-neutralised-next-to-a-self-include");
+                  }
+              }
+          } }
         for (long i = 0; i < nctx && i < 300; i++) { std::string n = "ctx" + std::to_string(i); LA(cf_register(n.c_str(), i < 31 ? (int)i : 99)); }
         for (long i = 0; i < nbi && i < 300; i++) { std::string n = "bi" + std::to_string(i); LA(cf_register_builtin(n.c_str())); }
         if (nctx > 160) ctx.label(">160-registered-contexts");
